@@ -14,6 +14,13 @@ FieldFinger(r) ==
   ELSE (IF ~r.compiles THEN {<<"C01", "does-not-compile", "field", r.id>>} ELSE {})
        \cup (IF r.compiles /\ r.full # e.full THEN {<<"C05", "wrong-source-selected", d.k, r.id>>} ELSE {})
        \cup (IF r.compiles /\ r.pnil # e.pnil THEN {<<"C05", "nil-intermediate-pointer", d.k, r.id>>} ELSE {})
+XFinger(r) ==
+  LET e == XExpect(r.prog) IN
+  IF r.gen = "panic" THEN {<<"C13", "generator-panic", r.why, r.id>>}
+  ELSE (IF e.gen = "fail" /\ r.gen = "ok" THEN {<<"C05", "setting-silently-dropped-or-ambiguity-accepted", r.prog.x, r.id>>} ELSE {})
+       \cup (IF e.gen = "ok" /\ r.gen # "ok" THEN {<<"C05", "selectable-field-rejected", r.prog.x, r.id>>} ELSE {})
+       \cup (IF e.gen = "ok" /\ r.gen = "ok" /\ ~r.compiles THEN {<<"C01", "does-not-compile", "fieldx", r.id>>} ELSE {})
+       \cup (IF e.gen = "ok" /\ r.gen = "ok" /\ r.compiles /\ r.prog.x = "method" /\ r.full # e.val THEN {<<"C05", "wrong-source-selected", r.prog.x, r.id>>} ELSE {})
 AccFinger(r) ==
   LET e == AccExpect([side |-> r.side, setting |-> r.setting]) IN
   IF r.gen = "panic" THEN {<<"C13", "generator-panic", r.why, r.id>>}
@@ -41,7 +48,7 @@ DefFinger(r) ==
   ELSE IF r.res.nil THEN {<<"C11", IF r.srcNil THEN "nil-source-does-not-return-constructor-result" ELSE "nil-result", "", r.id>>}
   ELSE (IF ~DMatch(e.A, r.res.A) THEN {<<"C11", IF r.srcNil THEN "nil-source-does-not-return-constructor-result" ELSE "mapped-field-not-converted", "", r.id>>} ELSE {})
        \cup (IF ~DMatch(e.B, r.res.B) THEN {<<"C11", IF r.srcNil THEN "nil-source-does-not-return-constructor-result" ELSE IF p.ignoreB THEN "ignored-field-lost-constructor-value" ELSE "mapped-field-not-converted", "", r.id>>} ELSE {})
-Finger(r) == IF r.kind = "field" THEN FieldFinger(r) ELSE IF r.kind = "acc" THEN AccFinger(r) ELSE IF r.kind = "default" THEN DefFinger(r) ELSE UpdFinger(r)
+Finger(r) == IF r.kind = "field" THEN FieldFinger(r) ELSE IF r.kind = "acc" THEN AccFinger(r) ELSE IF r.kind = "fieldx" THEN XFinger(r) ELSE IF r.kind = "default" THEN DefFinger(r) ELSE UpdFinger(r)
 VARIABLES l, bad
 Init == l = 1 /\ bad = {}
 Next == /\ l <= Len(Obs)
